@@ -18,6 +18,22 @@ CLAIMS = {
          "q*b = a when re b <> 0, + - neg are part-wise; vector types for every direction, dimension and presence pattern (shape premises proved invariant). Re-proved on every run against the "
          "model regenerated from /repo; the binary64 reading of the same generated code is executed in Coq and compared bit for bit with the implementation. Partial: exactness on dyadic grids "
          "is decided by exact rational comparison on the implementation (testing), not by a float-level theorem."),
+ 'C03': ("Coq proof by induction on programs (Hand/Prog.v, evaluated over the TRANSLATED operations): first-order parts of every type are Coquelicot derivatives of the real function along the input curves; real part = real evaluation; higher parts by the agreement theorem + per-operation Faa di Bruno/Leibniz theorems; bit-exact correspondence of whole programs",
+         "Programs are an expression syntax with sharing (variables, integer constants, 23 unary operations, + - * / with dual and scalar right operands, powi, let), interpreted by Prog.eval over ANY instance of the translated "
+         "interface; the Rust harness has the same interpreter generic in DualNum. Theorems (Props/C03.v, 12): for every program, every list of differentiable input curves and every point where each intermediate REAL value lies in "
+         "the domain of the operation applied to it (okR, a condition on the real function alone), the evaluation over Dual has real part = the real function and eps = its derivative (is_derive) along the curves; the same for the "
+         "first-order part in ANY direction of Dual2, Dual3, HyperDual, HyperHyperDual, DualVec, Dual2Vec, HyperDualVec (every component, dimension, presence pattern) and of Dual<Dual>, Dual<Dual<Dual>> (induction on programs with a "
+         "generic jet-algebra interface JetAlgF that each type is PROVED to satisfy from the C01/C02/C08/C09 theorems about the regenerated code). Higher and mixed parts: every operation is proved Leibniz / Faa di Bruno with true "
+         "derivative towers (C01, C02, C09) and all types are tied together part by part by the agreement theorems (C04), but no analytic statement 'v2 = second derivative of the composed real function' is proved (partial). "
+         "mul_add and iterator sum/product are proved equal to operator compositions in C08 and are not separate syntax. Whole random programs are run through the translated model inside Coq (binary64, libm from the oracle table) "
+         "and must equal the implementation bit for bit; the rounding clause is decided on the implementation by reference jets with a first-order running error bound propagated through the same jet algebra, and exactly on dyadic grids (testing)."),
+ 'C04': ("Coq proof: one generic agreement theorem (induction on programs over two jet algebras related by a relabelling of directions) instantiated for every pair of types; NDERIV additivity for an arbitrary instance; bit-exact correspondence and cross-type runs of whole programs",
+         "Theorems (Props/C04.v, 12): for EVERY program of Hand/Prog.v in the domain (okR on the real function) and every pair below, if the inputs are related (part y S = part x (map f S) on y's family) so are the results, on every "
+         "part: DualVec component i ~ Dual; Dual2Vec entries (i),(j),(i,j) ~ HyperDual; HyperDualVec ~ HyperDual; Dual2 ~ HyperDual with both directions on one variable; Dual3 ~ HyperHyperDual with three; Dual3 ~ Dual2 ~ Dual "
+         "(prefixes); HyperDual direction k ~ Dual; HyperDual ~ Dual<Dual>; HyperHyperDual ~ Dual<Dual<Dual>> (nested: integer exponents 0..8) -- any dimension and presence pattern; the generated code does not depend on static or "
+         "dynamic storage. NDERIV of each struct = NDERIV of its inner type + its own order, for an arbitrary instance (hence any nesting). The implementation is run on X and on Y inputs derived through f (41+ pairings: third/second "
+         "order scalar, nested to depth 3, vectors of dimension 1..6 static and dynamic, hyper-dual vectors) and compared within the sum of the two running error bounds; static vs dynamic storage bit for bit; binary32 vs binary64 on "
+         "binary32-representable inputs within the binary32 bound (tested, no theorem about f32); all 64-bit runs also through the model in Coq, bit for bit."),
  'C06': ("Coq proof for an ARBITRARY scalar instance (abstract F, T, DN): real part of every result is a function of the operands' real parts; comparisons/predicates decided by re; bit-exact correspondence",
          "Theorems (Props/C06.v, 580) are proved for an arbitrary interpretation of the scalar interface (abstract F and T with any DN instance: reals, binary64, a nested dual type), so they are literal "
          "bit-level statements and hold at every nesting level: for each of the eight types and every operation (unary functions, + - * /, scalar operands, powi/powf/powd/log/atan2/mul_add, sph_j*) "
